@@ -447,12 +447,16 @@ theorem claimPlain_nostop {picks : Choices} {pools : List Pool} {rq : Request} {
           rw [List.getElem?_set_ne (fun h => hr' h.symm)]
 
 /-- **`try_allocate` does not stop** in a state satisfying the full invariant, for a request with distinct resource
-ids whose entries address list / range / sum pools with any policy, or grouped pools with `all` (so that no scatter /
-compact / tight loop runs), and no entry addresses a resource the worker does not have (`Empty` pool — excluded
+ids whose entries address list / range / sum pools with any policy, or grouped pools with `all` / `scatter` (no entry
+goes through the group solver; for the grouped claims themselves "does not stop" is the premise `hgclaim`, discharged
+in `AllocScatter.lean`), and no entry addresses a resource the worker does not have (`Empty` pool — excluded
 upstream by `is_capable_to_run_request`; `all` on such a pool passes the test with `0 == 0` and hits `unreachable!()`). -/
 theorem tryAllocate_nostop {U} {s : State} (hinv : Inv2 U s) (hU : ∀ r g, (U r g).Nodup) (h : Nat) (rq : Request)
     (ch : Choices) (hnd : (rq.map (·.rid)).Nodup)
-    (hplain : ∀ e ∈ rq, ∀ full gs, s.pools[e.rid]? = some (.groups full gs) → e.policy = .all)
+    (hplain : ∀ e ∈ rq, ∀ full gs, s.pools[e.rid]? = some (.groups full gs) →
+      e.policy = .all ∨ e.policy = .scatter)
+    (hgclaim : ∀ e ∈ rq, ∀ full gs, s.pools[e.rid]? = some (.groups full gs) →
+      entryHasResources s.pools s.concise e = true → NoStop ((Pool.groups full gs).claim e (ch.pick e.rid)))
     (hcap : ∀ e ∈ rq, s.pools[e.rid]? ≠ some .empty) :
     NoStop (tryAllocate s h rq ch) := by
   -- no entry goes through the group solver
@@ -465,8 +469,7 @@ theorem tryAllocate_nostop {U} {s : State} (hinv : Inv2 U s) (hU : ∀ r g, (U r
     | some pool =>
       cases pool with
       | groups full gs =>
-        have := hplain e he full gs hp
-        simp [Pool.isGroups, this, Policy.relevantForCoupling]
+        rcases hplain e he full gs hp with h | h <;> simp [Pool.isGroups, h, Policy.relevantForCoupling]
       | _ => simp [Pool.isGroups]
   intro er herr
   unfold tryAllocate at herr
@@ -507,7 +510,7 @@ theorem tryAllocate_nostop {U} {s : State} (hinv : Inv2 U s) (hU : ∀ r g, (U r
         cases pool with
         | empty => exact absurd hp (hcap e he)
         | indices full g => exact claim_indices_nostop (admitted_indices hinv hp hadm)
-        | groups full gs => exact claim_groups_all_nostop (hplain e he full gs hp)
+        | groups full gs => exact hgclaim e he full gs hp hadm
         | sum full free => exact claim_sum_nostop (admitted_sum hinv hp hadm)
     unfold claimResources at herr
     cases hcp : claimPlain ch s.pools rq [] with
